@@ -411,6 +411,11 @@ Definition pex_enable_row (gpx : Z) (r : row) : row * vec :=
   if is_conn r && xpex r && negb (px r) && Z.ltb gpx Params.c16_max_size_pex
   then (set_px true r, d 14 1) else (r, vz).
 
+(* connection-level updates only ever apply to an established connection, handshake-level ones to a handshake *)
+Definition on_conn (f : row -> row * vec) (r : row) : row * vec := if is_conn r then f r else (r, vz).
+Definition on_hs (f : row -> row * vec) (r : row) : row * vec := if is_hs r then f r else (r, vz).
+Definition with_conn (c : nat) (f : row -> row * vec) (s : st) : st := with_row c (on_conn f) s.
+
 Definition piece_header (c : nat) (b : N) (s : st) : st :=
   match get_row c (rows s) with
   | None => reject s
@@ -418,18 +423,22 @@ Definition piece_header (c : nat) (b : N) (s : st) : st :=
       if has_req b (reqs r) then
         let (bl, valid) := start_tr c b (blocks s) in
         let s1 := set_blocks bl s in
-        with_row c (ph_valid_row b valid) s1
+        with_conn c (ph_valid_row b valid) s1
       else
-        with_row c ph_skip_row s
+        with_conn c ph_skip_row s
   end.
 
 (* PeerConnectionBase::down_chunk_finished after the transfer was handed back *)
-Definition after_piece (b : option N) (r : row) : row * vec :=
+Definition after_piece_core (keep qe : bool) (r : row) : row * vec :=
   let r0 := set_cur CNone r in
-  let keep_chunk := match b, filter (fun x => N.ltb x choked_tag) (reqs r0) with Some i, nxt :: _ => N.eqb (piece_of i) (piece_of nxt) | _, _ => false end in
-  let (r1, d1) := if keep_chunk then (r0, vz) else rel_dc r0 in
-  let (r2, d2) := if negb (du r1) && queued_empty (reqs r1) then erase_td r1 else (r1, vz) in
+  let (r1, d1) := if keep then (r0, vz) else rel_dc r0 in
+  let (r2, d2) := if negb (du r1) && qe then erase_td r1 else (r1, vz) in
   (r2, d1 +v d2).
+Definition after_piece (b : option N) (r : row) : row * vec :=
+  after_piece_core
+    (match b, filter (fun x => N.ltb x choked_tag) (reqs r) with
+     | Some i, nxt :: _ => N.eqb (piece_of i) (piece_of nxt) | _, _ => false end)
+    (queued_empty (reqs r)) r.
 
 Definition dec_tc_all (owners : list nat) (s : st) : st :=
   fold_left (fun s c => with_row c (tc_add (-1)) s) owners s.
@@ -440,16 +449,16 @@ Definition piece_end (c : nat) (s : st) : st :=
   | Some r =>
       match cur r with
       | CNone => reject s
-      | CSkip => with_row c (seq2 (tc_add (-1)) (after_piece None)) s
+      | CSkip => with_conn c (seq2 (tc_add (-1)) (after_piece None)) s
       | CValid b =>
           match find_blk b (blocks s) with
-          | None => with_row c (seq2 (tc_add (-1)) (after_piece (Some b))) s   (* invalidated meanwhile: skipped() *)
+          | None => with_conn c (seq2 (tc_add (-1)) (after_piece (Some b))) s   (* invalidated meanwhile: skipped() *)
           | Some bk =>
               if has_st c TL bk && negb (fin bk) then
                 dec_tc_all (te_owners (trs bk))
-                  (with_row c (after_piece (Some b)) (set_blocks (map_blk b (complete_blk c) (blocks s)) s))
+                  (with_conn c (after_piece (Some b)) (set_blocks (map_blk b (complete_blk c) (blocks s)) s))
               else
-                with_row c (seq2 (tc_add (-1)) (after_piece (Some b))) (set_blocks (rel_one c b (blocks s)) s)
+                with_conn c (seq2 (tc_add (-1)) (after_piece (Some b))) (set_blocks (rel_one c b (blocks s)) s)
           end
       end
   end.
@@ -462,7 +471,7 @@ Definition dissimilar (c : nat) (s : st) : st :=
           match find_blk b (blocks s) with
           | Some bk =>
               if has_st c TN bk then
-                with_row c dissim_row (set_blocks (map_blk b (set_st c TN TE) (blocks s)) s)
+                with_conn c dissim_row (set_blocks (map_blk b (set_st c TN TE) (blocks s)) s)
               else s
           | None => s
           end
@@ -520,11 +529,11 @@ Definition pmsg_step (c : nat) (m : pmsg) (n len : N) (s : st) : st :=
       | PNone => s
       | PHs =>
           if N.eqb (hsb r) Params.c16_hs_size then
-            let s1 := with_row c (hs_msg (seeding s) (Z.leb (maxc s) (nth 0 (g s) 0)) m n len) s in
+            let s1 := with_row c (on_hs (hs_msg (seeding s) (Z.leb (maxc s) (nth 0 (g s) 0)) m n len)) s in
             (* messages handed over with the handshake are dispatched at once (commit 5c4764e) *)
             match get_row c (rows s1), m with
             | Some r1, (MInt | MNotInt | MUnchoke | MChoke) =>
-                if is_conn r1 && N.eqb n len then with_row c (conn_msg_simple m) s1 else s1
+                if is_conn r1 && N.eqb n len then with_conn c (conn_msg_simple m) s1 else s1
             | Some r1, MPiece b ds =>
                 if is_conn r1 && N.leb Params.c16_piece_hdr n then piece_header c b s1 else s1
             | _, _ => s1
@@ -539,7 +548,7 @@ Definition pmsg_step (c : nat) (m : pmsg) (n len : N) (s : st) : st :=
                         | Some k => if N.ltb (Params.c16_piece_hdr + k) n then dissimilar c s1 else s1
                         | None => s1 end in
               if N.eqb n len then piece_end c s2 else s2
-          | _ => if N.eqb n len then with_row c (conn_msg_simple m) s else s
+          | _ => if N.eqb n len then with_conn c (conn_msg_simple m) s else s
           end
       end
   end.
@@ -561,9 +570,9 @@ Definition step (s : st) (o : op) : st :=
              | Some r, Some bk => has_req b (reqs r) && has_st c TQ bk
              | _, _ => false end then s else
           let (bl, ok) := add_tr c b (blocks s) in
-          let s1 := with_row c (lib_msg_row m) (set_blocks bl s) in
+          let s1 := with_conn c (lib_msg_row m) (set_blocks bl s) in
           if ok then s1 else reject s1
-      | _ => with_row c (lib_msg_row m) s
+      | _ => with_conn c (lib_msg_row m) s
       end
   | PexEnable c =>
       match get_row c (rows s) with None => s | Some _ =>
